@@ -2542,8 +2542,17 @@ class Summariser:
             node = k.class_attrs.get(attr)
             if isinstance(node, ast.Call) and isinstance(node.func, (ast.Name, ast.Attribute)):
                 K = self.prog.resolve_class(k.module, node.func)
-                if K is not None and self.prog.find_method(K, "__set__")[1] is not None:
-                    return K
+                st_ = self.prog.find_method(K, "__set__")[1] if K is not None else None
+                if st_ is not None and len(st_.args.args) >= 3:
+                    # only descriptors that store something *made from* the value (a copy, a conversion): one that
+                    # validates and keeps the value itself behaves like a plain attribute as far as the value goes
+                    vname = st_.args.args[2].arg
+                    made = [c_ for c_ in ast.walk(st_) if isinstance(c_, ast.Call) and
+                            any(isinstance(a_, ast.Name) and a_.id == vname for a_ in c_.args) and
+                            not (isinstance(c_.func, ast.Name) and c_.func.id in ("isinstance", "type", "repr", "str", "len", "print", "setattr")) and
+                            not (isinstance(c_.func, ast.Attribute) and c_.func.attr in ("format", "__setitem__"))]
+                    if made:
+                        return K
         return None
 
     def assign(self, target, val, events, st, aug=None):
